@@ -35,7 +35,7 @@ def shards(tier):
     out.append(("dapc",))
     for ec in S.EVENT_CLASSES:
         for sch in S.EVENT_SCHEMES:
-            out.append(("event", ec[1], sch, tier))
+            out.append(("event", ec[1], sch, tier, ec[0], ec[2]))
     out.append(("inclusion",))
     return out
 
@@ -130,15 +130,17 @@ def run_shard(shard):
         res["distinct"].add(("gear.general", "DAPC"))
         sample(res, {"dapc": "82 destinations x 256 levels"})
     elif k == "event":
-        _, name, sch, tier = shard
-        mod, _, itype, code = next(e for e in S.EVENT_CLASSES if e[1] == name)
+        _, name, sch, tier = shard[:4]
+        mod, itype, code = shard[4], shard[5], None
+        if name != "UnknownEvent":
+            mod, _, itype, code = next(e for e in S.EVENT_CLASSES if e[1] == name)
         from dali.device.helpers import DeviceInstanceTypeMapper
         for fields in S.event_field_space(sch, tier):
             for data in S.event_data_space(name, tier):
                 v = S.event_expected(mod, name, itype, code, sch, fields, data)
-                case = {"t": "event", "name": name, "scheme": sch, "fields": fields, "data": data}
+                case = {"t": "event", "name": name, "scheme": sch, "fields": fields, "data": data, "mod": mod, "itype": itype}
                 try:
-                    c = S.construct_event(mod, name, fields, data)
+                    c = S.construct_event(mod, name, fields, data, "int", itype)
                 except Exception as e:
                     add_violation(res, f"C03:event-construct:{name}", f"{case}: {e!r}", case)
                     continue
@@ -190,7 +192,7 @@ def replay(case):
     elif t == "dapc":
         return run_shard(("dapc",))["violations"]
     elif t == "event":
-        return run_shard(("event", case["name"], case["scheme"], "thorough"))["violations"]
+        return run_shard(("event", case["name"], case["scheme"], "thorough", case.get("mod", ""), case.get("itype")))["violations"]
     else:
         return run_shard(("inclusion",))["violations"]
     return res["violations"]
